@@ -1,3 +1,5 @@
 pub mod bridge;
+pub mod khconv;
+pub mod linkconv;
 pub mod matconv;
 pub mod sched;
